@@ -24,11 +24,25 @@ use crate::lhs_types::TypedArray;
 use crate::{FunctionCallArgExpr, LogicalExpr};
 
 pub(crate) static mut PROBE: Option<LhsValue<'static>> = None;
-pub(crate) static mut CTX: *const () = std::ptr::null();
 pub(crate) static mut REC_CALLS: u32 = 0;
 pub(crate) static mut REC_VEC_CALLS: u32 = 0;
 pub(crate) static mut REC_DEFAULT: Option<bool> = None;
 pub(crate) static mut REC_RESULT: Option<bool> = None;
+
+/// The context handed to the comparison object: a fresh context of the left-hand
+/// side's scheme (so it holds one matcher per registered list, created by the list
+/// definitions in registration order - what `InList` needs; no other comparison
+/// object looks at it).  It is built here rather than passed through a static:
+/// storing a pointer to a context in a `static mut` makes Kani 0.68 / CBMC 6.11 lose
+/// the capacity of later `Vec::new()` values (measured with the probe_vecnew_*
+/// probes), which produced spurious allocator failures.
+unsafe fn fresh_ctx<U>(this: &IndexExpr) -> &'static ExecutionContext<'static, U> {
+    let scheme = this.identifier.scheme();
+    Box::leak(Box::new(ExecutionContext::new_with(scheme, || {
+        // U = () in every harness
+        std::mem::MaybeUninit::<U>::uninit().assume_init()
+    })))
+}
 
 /// Contract of `IndexExpr::compile_with(self, compiler, default, comp)`.
 pub(crate) fn compile_with__contract<C: Compiler>(
@@ -42,7 +56,7 @@ pub(crate) fn compile_with__contract<C: Compiler>(
         REC_DEFAULT = Some(default);
         #[allow(static_mut_refs)]
         if let Some(v) = PROBE.as_ref() {
-            let ctx: &'static ExecutionContext<'static, C::U> = &*(CTX as *const ExecutionContext<'static, C::U>);
+            let ctx: &'static ExecutionContext<'static, C::U> = fresh_ctx::<C::U>(&this);
             REC_RESULT = Some(comp.compare(v, ctx));
         }
     }
@@ -62,7 +76,7 @@ pub(crate) fn compile_vec_with__contract<C: Compiler>(
         REC_VEC_CALLS += 1;
         #[allow(static_mut_refs)]
         if let Some(v) = PROBE.as_ref() {
-            let ctx: &'static ExecutionContext<'static, C::U> = &*(CTX as *const ExecutionContext<'static, C::U>);
+            let ctx: &'static ExecutionContext<'static, C::U> = fresh_ctx::<C::U>(&this);
             REC_RESULT = Some(comp.compare(v, ctx));
         }
     }
@@ -113,4 +127,14 @@ pub(crate) fn field_lhs(scheme: &Scheme, index: usize) -> IndexExpr {
         identifier: IdentifierExpr::Field(crate::scheme::verif_kani::common::field(scheme, index)),
         indexes: Vec::new(),
     }
+}
+
+/// Contract of `<IndexExpr as GetType>::get_type` for a field without indexes: the
+/// field's declared type (discharged for the real function in
+/// `ast::index_expr::verif_kani::c04`).  Needed because CBMC does not fold the
+/// niche-encoded tag of `IdentifierExpr` and would otherwise explore the
+/// function-call arm of the real `get_type` recursively.
+pub(crate) static mut LHS_TYPE: Option<Type> = None;
+pub(crate) fn index_expr_get_type__contract(this: &IndexExpr) -> Type {
+    unsafe { LHS_TYPE.unwrap() }
 }
